@@ -82,7 +82,15 @@ func c19Report(r *vk.Run, c c18Case, obs *c18Obs, problem string, throttleLeg bo
 		r.Outcome("C19", bucket)
 	}
 	if throttleLeg {
-		r.Outcome("C19", "throttle: "+strings.Join(j.Decisions, " ; "))
+		r.Outcome("C19", "throttle: "+strings.Join(j.Decisions, " ; ")+" tokens "+strings.Join(j.Tokens, ","))
+		for _, d := range j.Decisions {
+			if strings.Contains(d, "none(throttled)") {
+				r.AddInt("C19", "retries_refused_by_the_reference_bucket", 1)
+			}
+			if strings.Contains(d, "none(maximum attempts reached)") {
+				r.AddInt("C19", "rpcs_exhausting_max_attempts", 1)
+			}
+		}
 	}
 	if j.Retries >= 3 || (throttleLeg && j.Retries >= 1) {
 		var gs []string
@@ -96,7 +104,7 @@ func c19Report(r *vk.Run, c c18Case, obs *c18Obs, problem string, throttleLeg bo
 func TestVerif_C19_Timing(t *testing.T) {
 	r := vk.Start(t, "c19_timing", "exploration", "C19")
 	defer r.Finish()
-	r.Rule("C19", "timing: (backoff menu entry of 6: capped, never capped with multiplier 1.5, initial above cap, multiplier 0.5, nanosecond scale, seconds scale) x client {unary; thorough also client-stream with the failure noticed inside SendMsg, bidi} x ALL scripts of 4 failing attempts over the alphabet (quick {unavail, push0, push2000, close}; thorough + {refused, goaway}) followed by OK; throttling: maxTokens in {3,4} (tokenRatio 1) x ALL sequences of 3 (thorough 4) unary RPCs whose attempts are scripted from {ok; unavail,ok; unavail,unavail,..; internal; pushx; push-1; push2v; push0,ok}; non-trivial = at least one retry happened (a gap or a throttle decision was judged); every history is a distinct input")
+	r.Rule("C19", "timing: (backoff menu entry of 6: capped, never capped with multiplier 1.5, initial above cap, multiplier 0.5, nanosecond scale, seconds scale) x client {unary; thorough also client-stream with the failure noticed inside SendMsg, bidi} x ALL scripts of 4 failing attempts over the alphabet (quick {unavail, push0, push2000, close}; thorough + {refused, goaway}) followed by OK; throttling: maxAttempts in {2,3} x (maxTokens, tokenRatio) in {(3,1),(4,1),(6,1),(5,0.5),(6,0.5),(4,0.25)} (thorough + (5,1),(8,0.5)) x ALL sequences of 3 (thorough 4) unary RPCs on one channel, each RPC scripted per attempt from 12 scripts covering success at once / after retries (also OK trailers carrying pushback -1), non-retryable status, do-not-retry pushback (-1, malformed, two values), pushback 0 and exhausting maxAttempts with retryable failures; the reference bucket (every retryable failure or do-not-retry pushback removes a token whether or not a further attempt is allowed, every successful RPC adds tokenRatio, clamped to [0,maxTokens], retry refused iff tokens <= maxTokens/2 after the removal) is carried across the RPCs and must predict the attempt count of every RPC; non-trivial = at least one retry happened (a gap or a throttle decision was judged); every history is a distinct input")
 	r.Assume("C19", "the jitter source (math/rand/v2 global) cannot be driven: the interval is asserted for the values drawn; delays are whole nanoseconds so [0.8b,1.2b] is widened to the enclosing integers; the end of attempt n is the instant the raw server wrote its terminal frame (the driver never lets virtual time pass between that and the client's next stream operation); reconnecting after GOAWAY / connection loss takes no virtual time with the in-memory dialer")
 	r.Assume("C19", "throttling leg: committed failures (response headers received, buffer exceeded) are not in the alphabet: whether they should cost a token is read differently by gRFC A6 and the code comment; trusted: synctest virtual time, the raw peer's frame log, the byte-stream time-stamper c18TimedConn")
 	st := &c19Stats{}
@@ -151,20 +159,40 @@ func TestVerif_C19_Timing(t *testing.T) {
 			}
 		}
 	}
-	// ---- (2) throttling across RPCs
-	scripts := [][]int{{c18BOK}, {c18BUnavail}, {c18BUnavail, c18BUnavail}, {c18BInternal}, {c18BPushBad}, {c18BPushNeg}, {c18BPushTwo}, {c18BPush0}}
-	nrpc := r.Pick(3, 4)
-	total := 1
-	for i := 0; i < nrpc; i++ {
-		total *= len(scripts)
+	// ---- (2) throttling across RPCs: the token ledger over sequences of RPCs on one channel
+	U, P, I, N, X, V, OK, OKP := c18BUnavail, c18BPush0, c18BInternal, c18BPushNeg, c18BPushBad, c18BPushTwo, c18BOK, c18BOKPushNeg
+	// per-RPC attempt scripts (attempts beyond a script are answered OK): every
+	// way an RPC can end within maxAttempts - success at once / after retries,
+	// non-retryable status, do-not-retry pushback (negative, malformed, two
+	// values), pushback 0, and EXHAUSTING maxAttempts with retryable failures.
+	scriptsFor := map[int][][]int{
+		2: {{OK}, {OKP}, {I}, {N}, {X}, {V}, {U, OK}, {U, U}, {U, I}, {U, N}, {P, OK}, {P, U}},
+		3: {{OK}, {OKP}, {I}, {N}, {U, OK}, {U, U, OK}, {U, U, U}, {U, I}, {U, U, N}, {P, U, U}, {U, P, OK}, {U, U, X}},
 	}
-	for _, mt := range []int{3, 4} {
-		for code := 0; code < total; code++ {
-			var rpcs []c18RPCSpec
-			for i, x := 0, code; i < nrpc; i, x = i+1, x/len(scripts) {
-				rpcs = append(rpcs, c18RPCSpec{Client: "unary", When: c18WhenLate, Script: scripts[x%len(scripts)]})
+	type menu struct {
+		max   int
+		ratio string
+	}
+	// buckets within a few failures of the half-way refusal boundary
+	menus := []menu{{3, ""}, {4, ""}, {6, ""}, {5, "0.5"}, {6, "0.5"}, {4, "0.25"}}
+	if r.Thorough() {
+		menus = append(menus, menu{5, ""}, menu{8, "0.5"})
+	}
+	nrpc := r.Pick(3, 4)
+	for _, ma := range []int{2, 3} {
+		scripts := scriptsFor[ma]
+		total := 1
+		for i := 0; i < nrpc; i++ {
+			total *= len(scripts)
+		}
+		for _, mn := range menus {
+			for code := 0; code < total; code++ {
+				var rpcs []c18RPCSpec
+				for i, x := 0, code; i < nrpc; i, x = i+1, x/len(scripts) {
+					rpcs = append(rpcs, c18RPCSpec{Client: "unary", When: c18WhenLate, Script: scripts[x%len(scripts)]})
+				}
+				run(c18Case{Cfg: c18Cfg{MaxAttempts: ma, Buf: 1 << 20, Throttle: mn.max, Ratio: mn.ratio}, Pad: c18BOK, RPCs: rpcs}, true)
 			}
-			run(c18Case{Cfg: c18Cfg{MaxAttempts: 3, Buf: 1 << 20, Throttle: mt}, Pad: c18BOK, RPCs: rpcs}, true)
 		}
 	}
 	if capped {
